@@ -221,8 +221,8 @@ def bounded(seed, quick):
     rng = np.random.RandomState(seed)
     ev = 0
     # two-sided factor: coverage equation holds for low and high coverage, small and large n; monotone in p and c; limit
-    for n in (2, 3, 5, 10, 30, 200):
-        for p in (0.3, 0.5, 0.7, 0.76, 0.8, 0.9, 0.99, 0.999):
+    for n in (2, 3, 4, 5, 10, 30, 200):
+        for p in (0.3, 0.5, 0.7, 0.76, 0.8, 0.9, 0.99, 0.999, 0.9999, 0.99999, 0.999999):
             for c in (0.3, 0.5, 0.9, 0.99):
                 with warnings.catch_warnings():
                     warnings.simplefilter("ignore")
